@@ -239,12 +239,12 @@ def zExists (z : ZSet) (m : Bytes) : Bool := AList.contains z.dict m
 /-- `ZIncrBy` with the float sum supplied by the caller (`sum` = old + delta, or delta) -/
 def zIncrByWith (z : ZSet) (m : Bytes) (newScore : F64) : ZSet := (zAdd z m newScore).1
 
-/-- `ZScan(cursor, match, count)` -/
-def zScan (z : ZSet) (cursor : Int) (pat : Bytes) (count : Int) : Option (Int × List Item) :=
-  let count := if count = 0 then zCard z else count
+/-- `ZScan(cursor, match, count)`: positional over the chain; an empty pattern means "*" -/
+def zScan (z : ZSet) (cursor : Int) (pat : Bytes) (count : Int) : Int × List Item :=
   let pat := if pat.isEmpty then [42] else pat
-  (forEachByRank z cursor (cursor + count) false).map fun items =>
-    let ms := items.filter fun it => Glob.matched pat it.2
-    (cursor + ms.length, ms)
+  let c : Nat := if cursor < 0 then 0 else cursor.toNat
+  let rest := z.sl.drop c
+  let seen := if count > 0 then rest.take count.toNat else rest
+  (((min c z.sl.length + seen.length : Nat) : Int), seen.filter fun it => Glob.matched pat it.2)
 
 end NodisVerif.DsZSet
